@@ -32,6 +32,8 @@ type c15Case struct {
 	// AtFirst (2FA flows): the parameter is delivered with the password step; the code step is then
 	// sent the way a browser would, to the URL the password step redirected to (query carried along)
 	AtFirst bool `json:"at_first,omitempty"`
+	// O2Err (oauth2 flow): the provider's callback reports this error instead of a code (the user pressed cancel, ...)
+	O2Err string `json:"o2err,omitempty"`
 }
 
 var c15Flows = []string{"login", "otplogin", "totp", "sms", "oauth2"}
@@ -120,6 +122,11 @@ func c15Run(c c15Case) *Violation {
 		}
 		startWire = sw
 		q = harness.Req{Method: "GET", Path: w.Path("/oauth2/callback/goog"), Query: url.Values{"state": {w.Jars[0].SessionCopy()["oauth2_state"]}, "code": {"code-u1"}}}
+		if c.O2Err != "" {
+			q.Query.Del("code")
+			q.Query.Set("error", c.O2Err)
+			q.Query.Set("error_description", "the user said no")
+		}
 	}
 	page = q.Path
 	_ = page
@@ -132,7 +139,7 @@ func c15Run(c c15Case) *Violation {
 		scheme = "https"
 	}
 	loggedIn := w.Jars[0].SessionCopy()["uid"] != ""
-	if !loggedIn {
+	if !loggedIn && c.O2Err == "" {
 		// the flow did not complete: nothing to judge about its final answer (counted, never a violation)
 		st("C15").add("inconclusive", 1)
 		return nil
@@ -230,6 +237,9 @@ func c15Gen(t *rapid.T) c15Case {
 	c.InBody = !c.JSON && chance(t, "inbody", 40)
 	c.Pre = pick(t, "pre", "", "", "", "loggedin", "other")
 	c.AtFirst = (c.Flow == "totp" || c.Flow == "sms") && chance(t, "atfirst", 40)
+	if c.Flow == "oauth2" && chance(t, "o2err", 30) {
+		c.O2Err = pick(t, "o2errkind", "access_denied", "access_denied", "server_error", "x")
+	}
 	if chance(t, "repeated", 30) {
 		// the parameter repeated: a benign value beside the hostile one, in either order
 		c.Redir2 = pick(t, "redir2", "/dashboard", "/x", "/a/b?c=1", "//evil.com", "https://evil.com/")
@@ -259,7 +269,7 @@ func TestC15(t *testing.T) {
 		c := c15Gen(rt)
 		hostile, cls := c15Class(c)
 		v := c15Run(c)
-		s.record(hostile, fnv64(c.Flow, modeName(c), cls, c.Redir, c.Pre, fmt.Sprint(c.AtFirst)), []string{"flow:" + c.Flow, "class:" + cls, "pre:" + c.Pre, fmt.Sprintf("at-first:%v", c.AtFirst)}, func() interface{} { return c })
+		s.record(hostile, fnv64(c.Flow, modeName(c), cls, c.Redir, c.Pre, fmt.Sprint(c.AtFirst), c.O2Err), []string{"o2err:" + c.O2Err, "flow:" + c.Flow, "class:" + cls, "pre:" + c.Pre, fmt.Sprintf("at-first:%v", c.AtFirst)}, func() interface{} { return c })
 		handle(rt, v, "c15", c)
 	})
 }
